@@ -7,3 +7,10 @@ pub mod util;
 pub mod c15_ts;
 #[cfg(kani)]
 pub mod c15_path;
+#[cfg(kani)]
+pub mod c16_tpl;
+pub mod rec;
+#[cfg(kani)]
+pub mod c01_emit;
+#[cfg(kani)]
+pub mod c02_props;
